@@ -898,6 +898,8 @@ class Extract:
     rename: str = ""
 
 
+DROP_HINT_IDENTS: set = set()   # retry mode: proof hints that name one of these (no longer existing) locals are dropped
+DROPPED_HINTS: list = []
 CLOSURE_FALLBACK = [True]   # re-attach a closure contract whose anchor text is gone to the closure with the same parameters
 PATH_CANARIES = [False]     # thorough tier: reachability canaries after every statement of the extracted code (tools/canary.py)
 CANARY_COUNT = [0]
@@ -1444,6 +1446,11 @@ def build(template_text: str, repo: str, unit: str) -> Built:
             continue
         exx = part[1]
         for ins in exx.inserts + exx.entry + exx.exit_ + exx.derive_proof:
+            gone = [x for x in DROP_HINT_IDENTS if re.search(r"(?<![\w.])" + re.escape(x) + r"\b", ins[3])]
+            if gone:
+                DROPPED_HINTS.append(f"LOST: proof hint dropped, it names `{gone[0]}`, which the code no longer binds: {ins[3][:80]!r}")
+                ins[3] = f"/* hint dropped: names `{gone[0]}` */"
+                continue
             ins[3] = _mark_hint(ins[3])
         for c in exx.clauses:
             if c.kind in ("loopentry", "looppre", "loophead", "looptail", "loopreturns", "loopafter"):
